@@ -137,9 +137,50 @@ def run(ctx):
     rcm, model, _, errm = fw.run_model(ctx, cf)
     if rcm != 0: ctx.signal("K", "modeldriver", "model driver exited with %s: %s" % (rcm, errm[-400:]))
     for c in cases: judge(ctx, c, impl, model)
+    if not ctx.replay: run_block_conv(ctx)
     if not ctx.replay:
         import C07par
         C07par.run(ctx)
+
+def run_block_conv(ctx):
+    """BSR -> CSR (block storage to scalar storage): operator, dimensions, no stored explicit zero; model = bsr_to_csr"""
+    rng = ctx.rng; cases = []
+    for k in range(ctx.scale(200, 4000)):
+        nbr, nbc = rng.randint(1, 4), rng.randint(1, 4); br, bc = rng.randint(1, 3), rng.randint(1, 3)
+        nblk = rng.choice([0, 1, rng.randint(1, nbr * nbc + 2)])
+        blocks = [(rng.randrange(nbr), rng.randrange(nbc), [gen.rand_val(rng) if rng.random() > 0.2 else Fraction(0) for _ in range(br * bc)])
+                  for _ in range(nblk)]
+        toks = ["bc%d" % k, "bconv", "bsr", nbr, nbc, br, bc, nblk]
+        for (I, J, v) in blocks: toks += [I, J] + [nums.tok_num(z) for z in v]
+        exp = {}
+        for (I, J, v) in blocks:
+            for r in range(br):
+                for c in range(bc):
+                    key = (I * br + r, J * bc + c); exp[key] = exp.get(key, Fraction(0)) + v[r * bc + c]
+        cases.append(dict(cid="bc%d" % k, line=" ".join(str(z) for z in toks), exp={k_: v for k_, v in exp.items() if v != 0},
+                          nr=nbr * br, nc=nbc * bc, nblk=nblk))
+    lines = [c["line"] for c in cases]
+    impl, crashed = fw.run_impl_lines(ctx, "drv_matrix", lines, nprocs=0, name="c07blk")
+    cf = fw.write_cases(ctx, "c07blk.cases", lines)
+    rc, model, _, err = fw.run_model(ctx, cf)
+    for c in cases:
+        ctx.evaluations += 1; ctx.count("op_bsr_to_csr")
+        if c["nblk"]: ctx.nontrivial.add(c["line"].split(" ", 1)[1])
+        sig = "block:bsr_to_csr"
+        ri, rm = impl.get(c["cid"]), model.get(c["cid"])
+        if not ri or ri[0][0] != "R":
+            ctx.signal("O", sig + ":crash", "implementation failed on case: %s" % (ri,), case=c["line"]); continue
+        Mi = fw.parse_mat_tokens(ri[0][1])
+        ok, why = fw.dense_equal(Mi.dense(), c["exp"])
+        if ok and (Mi.nr, Mi.nc) != (c["nr"], c["nc"]): ok, why = False, "dimensions %s, expected %s" % ((Mi.nr, Mi.nc), (c["nr"], c["nc"]))
+        if not ok:
+            ctx.signal("O", sig, "operator/dimension postcondition violated: " + why, case=c["line"], extra=dict(impl=" ".join(ri[0][1])))
+        if not rm or rm[0][0] != "R":
+            ctx.signal("K", sig + ":model", "model produced no result: %s" % (rm,), case=c["line"]); continue
+        Mm = fw.parse_mat_tokens(rm[0][1])
+        eq, why = fw.mats_equal_canonical(Mi, Mm); ctx.compared += 1
+        if not eq:
+            ctx.signal("K", sig, "model and implementation differ: " + why, case=c["line"], extra=dict(impl=" ".join(ri[0][1]), model=" ".join(rm[0][1])))
 
 def dict_from_line(line):
     """rebuild a case from its text (replay)"""
